@@ -661,6 +661,37 @@ def contract_check(chk, rng, n):
                 chk.fail('fmt_contract:%s:p=%d' % (bad[0], p), 'the number-formatting contract the value theorems assume does not hold: ' + bad[1],
                          dict(kind='contract', x=hexf(x), p=p))
 
+def frac_wire(q):
+    q = Fraction(q)
+    return str(q.numerator) if q.denominator == 1 else '%d/%d' % (q.numerator, q.denominator)
+
+def k_rnd(chk, d, rng, n):
+    """the exact rational model of '%.{p}g' + strtod (Model: roundSig, roundBin, rndModel; theorems C14_round_*) against
+    (a) Python's Decimal arithmetic for the decimal rounding, (b) the REAL chain float('%.*g' % (p, x)) for the composed map,
+    (c) the identity on doubles for roundBin — finite values only (nan / inf are tokens, not rationals)."""
+    for i, x in enumerate(contract_values(rng, n)):
+        if not math.isfinite(x) or abs(x) > 1e308:
+            continue
+        for p in ((16, 17) if i % 3 else (16, 17, 18, 20, 30, 1, 5, 15)):
+            out = d.ask('c14.rnd %d %s' % (p, frac_wire(Fraction(x)))).split(' ')
+            if out[0] != 'ok':
+                chk.k_bad('round_model', dict(kind='rnd', x=hexf(x), p=p), None, ' '.join(out)[:200], 'model refuses'); continue
+            msig, mrnd, mbin = (Fraction(t) for t in out[1:4])
+            if x == 0:
+                want_sig = Fraction(0)
+            else:
+                with localcontext() as ctx:
+                    ctx.prec = p; ctx.rounding = ROUND_HALF_EVEN; ctx.Emax = 999999; ctx.Emin = -999999
+                    want_sig = Fraction(+Decimal(x))
+            real = float('%.*g' % (p, x))
+            msg = None
+            if msig != want_sig: msg = 'roundSig: model %s, Decimal %s' % (msig, want_sig)
+            elif mbin != Fraction(x): msg = 'roundBin of a double is not the double'
+            elif math.isfinite(real) and mrnd != Fraction(real): msg = 'rndModel: model %s, printf/strtod give %r' % (float(mrnd), real)
+            chk.stat('k_rnd_p%d' % p if p in (16, 17) else 'k_rnd_other_p')
+            if msg is None: chk.k_ok('round_model')
+            else: chk.k_bad('round_model', dict(kind='rnd', x=hexf(x), p=p), repr(real), ' '.join(out)[:300], msg)
+
 # ------------------------------------------------------------------ which file is opened how (K + L3)
 OPEN_NAMES = ['a.fs', 'a.gz', 'a.fs.gz', 'a.GZ', 'a.gz.fs', 'gz', '.gz', 'a.gzz', 'a..gz', 'a.gz.gz', 'a_gz', 'a.fs.Gz', 'x.gz.bak',
               'ünï.fs.gz', 'with space.gz', 'agz', 'a.gz ', 'a.g', 'z']
@@ -1420,6 +1451,7 @@ def run(chk, ctx):
             k_primitives(chk, d, rng, tier)
             k_meta(chk, ctx, d)
             k_newmeta(chk, ctx, d)
+            k_rnd(chk, d, rng, 150 if tier == 'quick' else 1500)
             modes = d.ask('c14.modes')
             chk.notes.append('open modes read from the source (to_file gz/plain, from_file gz/plain, array_to_file, array_from_file): ' + modes)
         param_check(chk, rng, 60 if tier == 'quick' else 400)
@@ -1466,6 +1498,8 @@ def replay(chk, ctx, data):
             param_check(chk, rng, 60)
         elif inp.get('kind') == 'contract':
             contract_check(chk, rng, 250)
+        elif inp.get('kind') == 'rnd' and ctx['driver'] is not None:
+            k_rnd(chk, ctx['driver'], rng, 150)
         elif inp.get('kind') == 'open':
             d = ctx['driver']
             open_dispatch(chk, ctx, d if (d is not None and d.ok()) else None, tmp, seen)
